@@ -592,6 +592,10 @@ class DistributedNetwork(BaseManager):
     async def _on_session_initialized(self, event: SessionInitializedEvent):
         self._session = event.session
         await self._notify_server_of_parent()
+        # What changed while there was no session (parent lost, children
+        # accepted) could not be advertised to the children at that time
+        if self.children:
+            await self._notify_children_of_branch_values()
 
     async def _on_session_destroyed(self, event: SessionDestroyedEvent):
         self._session = None
